@@ -91,6 +91,10 @@ def _ref_one(pm, call, want_out):
         opts = [_mk_rao(pm, call['ra'])]
         c['ra'] = {'slot': 0}
     fn = build_call(pm, c, sources, lists, opts)
+    if call.get('reclimit_delta'):
+        # margin reference: the same call with a slightly different stack budget, to tell "the input sits right at
+        # the recursion limit" (tracing costs a frame or two) from "this execution lost stack it should have had"
+        sys.setrecursionlimit(max(50, sys.getrecursionlimit() + call['reclimit_delta']))
     return _outcome(fn, want_out)
 
 
